@@ -672,6 +672,11 @@ def length_codec(rep, prog):
     C09.widths(P, prog, H, B)
     C09.tagoctet(P, prog, B)
     C09.partial(P, prog, B)
+    # ... and the length a packet DECLARES is the length of the body it serialises: update_hlen computes it from the serialised octets, a
+    # class-level override that counts something else (characters of a file name instead of its octets) frames the literal packet short
+    # for exactly the inputs where the two differ (the C08.h definitions under this property; seeded change C20-w6mut2)
+    from rules import C08
+    C08.check_update_hlen_defs(P, prog)
 
 
 # ------------------------------------------------------------------------------------------------ literal text codec
